@@ -256,4 +256,306 @@ theorem hdrLen_eq_le16 (f : ByteArray) (i : Nat) (h : i + 6 ≤ f.size) :
   unfold hdrLen le16
   rw [toList_size2 _ hs]
 
+/-! ### one iteration of the loop of `next`
+
+The loop body is executed symbolically *one condition at a time* (`rw [if_pos/if_neg (by …)] at hX` on the
+unfolded body): each condition is a small term, so the `omega` side goals stay small.  (Simplifying the
+whole body with `simp (disch := omega)` as for `readToBuf` works but is slow here: the branch conditions
+pile up as hypotheses, and `omega` proofs over more than about ten atoms are slow to check in the kernel.) -/
+
+/-- a fact kept out of sight of `omega` (which collects every arithmetic hypothesis) -/
+structure Hid (p : Prop) : Prop where
+  h : p
+
+theorem Ctl.call_some {α σ ρ : Type} {r : Option α} {a : α} (k : α → Ctl σ ρ) (h : r = some a) :
+    Ctl.call r k = k a := by subst h; rfl
+
+theorem rnormB_lit (b o : Nat) : rnormB b o = if o + 7 ≥ 32768 then b + 1 else b := rfl
+theorem rnormO_lit (o : Nat) : rnormO o = if o + 7 ≥ 32768 then 0 else o := rfl
+theorem claimedEnd_lit (f : ByteArray) (base off size : Nat) :
+    claimedEnd f base off size
+      = if off + 7 ≤ size then min (base + size) (base + off + 7 + hdrLen f (base + off)) else base + size := rfl
+theorem end_eq (s : NSt) (c : Int) (h : s.end_ = c) : s.end_ = c := h
+
+set_option hygiene false in
+/-- decide one (small) condition of the generated code: remove the 64-bit wraps, then linear arithmetic -/
+local macro "nd" : tactic =>
+  `(tactic| (simp (disch := omega) only [hfs, datafile.blockSize, datafile.chunkHeaderSize, i64_of_range, Int.toNat_natCast,
+      ne_eq, not_true_eq_false, not_false_eq_true, reduceCtorEq] <;> omega))
+
+set_option hygiene false in
+/-- the same with the facts about the block window and the decoded chunk (no final `omega`) -/
+local macro "ndd" : tactic =>
+  `(tactic| (simp (disch := omega) only [hfs, datafile.blockSize, datafile.chunkHeaderSize, datafile.Full, datafile.Last,
+      i64_of_range, Int.toNat_natCast, Nat.mod_eq_of_lt, hsize.h, hoff.h, hwin, hdec,
+      ne_eq, not_true_eq_false, not_false_eq_true, reduceCtorEq, Option.some.injEq, String.reduceEq,
+      and_true, true_and, and_false, false_and, or_false, false_or, or_true, true_or, Bool.false_eq_true]))
+
+set_option hygiene false in
+/-- the last step of every error path: `ErrIncompleteChunk` is reported as `ErrInvalidCRC` -/
+local macro "errleaf" : tactic =>
+  `(tactic| (cases inc
+             · simp only [Bool.false_eq_true, ↓reduceIte] at he
+               subst he
+               rw [if_neg (by ndd)] at hX
+               rw [← hX]
+               ndd
+             · simp only [↓reduceIte] at he
+               subst he
+               rw [if_pos (by ndd)] at hX
+               exact hX.symm))
+
+set_option hygiene false in
+/-- a tolerant reader, after `end` was computed: the `tornZero` rule -/
+local macro "toltail" : tactic =>
+  `(tactic| (cases haz1 : allZeroFrom file ce
+             · rw [Ctl.call_some _ (hzz _ _ ce false rfl (by nd) haz1)] at hX
+               rw [if_neg (by simp)] at hX
+               rw [if_neg (by
+                 intro h
+                 rcases h with h | h | h
+                 · exact hE' h
+                 · exact Bool.noConfusion h
+                 · simp [haz1] at h)]
+               errleaf
+             · rw [Ctl.call_some _ (hzz _ _ ce true rfl (by nd) haz1)] at hX
+               by_cases hlt : ce < file.size
+               · rw [if_pos ⟨by nd, rfl⟩] at hX
+                 rw [if_pos (Or.inr (Or.inr (by simp [hlt, haz1])))]
+                 exact hX.symm
+               · rw [if_neg (by ndd; omega)] at hX
+                 rw [if_neg (by
+                   intro h
+                   rcases h with h | h | h
+                   · exact hE' h
+                   · exact Bool.noConfusion h
+                   · simp [hlt] at h)]
+                 errleaf))
+
+/-- the block starts at or behind the end of the file -/
+theorem nbody0_eof1 (file pool0 : ByteArray) (tol : Bool) (st : NSt) (B O : Nat)
+    (hB : st.reader_blockID = B) (hO : st.reader_offset = O)
+    (hfs : st.fileSize = (file.size : Int))
+    (hB32 : B < 2^32) (h1 : B * 32768 ≥ file.size) :
+    datafile.next.body0 file crcNat pool0 tol st
+        = .ret ((ByteArray.empty, none, datafile.endOfLog tol st.cnt), B, O, st.reader_validEnd) := by
+  subst hB hO
+  generalize hX : datafile.next.body0 file crcNat pool0 tol st = X
+  simp only [datafile.next.body0] at hX
+  rw [if_pos (by nd)] at hX
+  exact hX.symm
+
+/-- the offset is at or behind the end of the readable part of the block -/
+theorem nbody0_eof2 (file pool0 : ByteArray) (tol : Bool) (st : NSt) (B O : Nat)
+    (hB : st.reader_blockID = B) (hO : st.reader_offset = O)
+    (hfs : st.fileSize = (file.size : Int))
+    (hB32 : B < 2^32) (hf : file.size < 2^47) (h1 : B * 32768 < file.size)
+    (h2 : O ≥ min (file.size - B * 32768) 32768) :
+    datafile.next.body0 file crcNat pool0 tol st
+        = .ret ((ByteArray.empty, none, datafile.endOfLog tol st.cnt), B, O, st.reader_validEnd) := by
+  subst hB hO
+  generalize hX : datafile.next.body0 file crcNat pool0 tol st = X
+  simp only [datafile.next.body0] at hX
+  rw [if_neg (by nd)] at hX
+  rw [if_pos (by nd)] at hX
+  exact hX.symm
+
+/-- the chunk at `(B, O)` decodes: the last chunk of a record ends the loop, any other continues in the next block -/
+theorem nbody0_ok (file pool0 : ByteArray) (tol : Bool) (st : NSt) (B O size : Nat) (p : ByteArray) (t : Nat)
+    (hB : st.reader_blockID = B) (hO : st.reader_offset = O) (hbs : st.reader_blockBuf.size = 32768)
+    (hfs : st.fileSize = (file.size : Int))
+    (hB1 : B + 1 < 2^32) (hf : file.size < 2^47) (h1 : B * 32768 < file.size)
+    (hsz : size = min (file.size - B * 32768) 32768) (h2 : O < size)
+    (hd : Chunk.dec (file.extract (B * 32768 + O) (B * 32768 + size)) = .ok p t) :
+    if @Eq Nat t 0 ∨ @Eq Nat t 3 then
+      ∃ st', datafile.next.body0 file crcNat pool0 tol st = .brk st' ∧ st'.res = st.res ++ p ∧
+        st'.cnt = (st.cnt + 1) % 2^32 ∧ st'.reader_blockID = rnormB B (O + H + p.size) ∧
+        st'.reader_offset = rnormO (O + H + p.size) ∧
+        st'.reader_validEnd = ((B * BS + (O + H + p.size) : Nat) : Int) ∧ st'.pos = st.pos
+    else
+      ∃ st', datafile.next.body0 file crcNat pool0 tol st = .next st' ∧ st'.res = st.res ++ p ∧
+        st'.cnt = (st.cnt + 1) % 2^32 ∧ st'.reader_blockID = B + 1 ∧ st'.reader_offset = 0 ∧
+        st'.reader_blockBuf.size = 32768 ∧ st'.fileSize = (file.size : Int) ∧
+        st'.reader_validEnd = st.reader_validEnd ∧ st'.pos = st.pos := by
+  subst hB hO
+  have hs1 : size ≤ 32768 := by omega
+  have hs2 : st.reader_blockID * 32768 + size ≤ file.size := by omega
+  have hsize : Hid ((min ((file.size : Int) - (st.reader_blockID : Int) * ((32768 : Nat) : Int)) ((32768 : Nat) : Int) % 2 ^ 32).toNat
+      = size) := ⟨by omega⟩
+  have hoff : Hid (((st.reader_blockID : Int) * ((32768 : Nat) : Int)).toNat = st.reader_blockID * 32768) := ⟨by omega⟩
+  clear hsz
+  have hwin := read_window st.reader_blockBuf file (st.reader_blockID * 32768) size st.reader_offset (by omega)
+  have hdec := trans_DecodeChunk_eq (file.extract (st.reader_blockID * 32768 + st.reader_offset)
+          (st.reader_blockID * 32768 + size))
+  have hsr := (size_read st.reader_blockBuf file (st.reader_blockID * 32768) size (by omega) (by omega)).trans hbs
+  clear hbs
+  have hps := dec_ok_size hd
+  rw [ByteArray.size_extract, hH] at hps
+  have hps' : st.reader_offset + 7 + p.size ≤ size := by omega
+  clear hps
+  rw [hd] at hdec
+  simp only [ofDecOut] at hdec
+  clear hd
+  generalize hX : datafile.next.body0 file crcNat pool0 tol st = X
+  simp only [datafile.next.body0] at hX
+  rw [if_neg (by nd)] at hX
+  rw [if_neg (by nd)] at hX
+  rw [if_neg (by ndd)] at hX
+  rw [if_neg (by ndd)] at hX
+  by_cases ht : @Eq Nat t 0 ∨ @Eq Nat t 3
+  · rw [if_pos ht]
+    rw [if_pos (by ndd; exact ht)] at hX
+    by_cases hc : st.reader_offset + 7 + p.size + 7 ≥ 32768
+    · rw [if_pos (by ndd; omega)] at hX
+      subst hX
+      refine ⟨_, rfl, ?_, ?_, ?_, ?_, ?_, ?_⟩
+      · show _ ++ _ = _
+        ndd
+      · rfl
+      · show (st.reader_blockID + 1) % 2^32 = _
+        rw [rnormB_lit, hH, if_pos (by omega)]
+        omega
+      · show 0 = _
+        rw [rnormO_lit, hH, if_pos (by omega)]
+      · show i64 _ = _
+        ndd
+        rw [hBS, hH]
+        omega
+      · rfl
+    · rw [if_neg (by ndd; omega)] at hX
+      subst hX
+      refine ⟨_, rfl, ?_, ?_, ?_, ?_, ?_, ?_⟩
+      · show _ ++ _ = _
+        ndd
+      · rfl
+      · show st.reader_blockID = _
+        rw [rnormB_lit, hH, if_neg (by omega)]
+      · show (_ + _) % 2^32 = _
+        ndd
+        rw [rnormO_lit, hH, if_neg (by omega)]
+        omega
+      · show i64 _ = _
+        ndd
+        rw [hBS, hH]
+        omega
+      · rfl
+  · rw [if_neg ht]
+    rw [if_neg (by ndd; exact ht)] at hX
+    subst hX
+    refine ⟨_, rfl, ?_, ?_, ?_, ?_, ?_, ?_, ?_, ?_⟩
+    · show _ ++ _ = _
+      ndd
+    · rfl
+    · show (st.reader_blockID + 1) % 2^32 = _
+      omega
+    · rfl
+    · show (putAt _ _ _).size = _
+      ndd
+      exact hsr
+    · exact hfs
+    · rfl
+    · rfl
+
+
+/-- the chunk at `(B, O)` does not decode (`inc`: it is incomplete, otherwise its checksum is wrong): end of the log
+    under the model's three rules, `ErrInvalidCRC` otherwise -/
+theorem nbody0_bad (file pool0 : ByteArray) (tol inc : Bool) (st : NSt) (B O size : Nat) (e : String)
+    (hB : st.reader_blockID = B) (hO : st.reader_offset = O) (hbs : st.reader_blockBuf.size = 32768)
+    (hfs : st.fileSize = (file.size : Int)) (hp0 : pool0.size = 32768)
+    (hB32 : B < 2^32) (hf : file.size < 2^47) (h1 : B * 32768 < file.size)
+    (hsz : size = min (file.size - B * 32768) 32768) (h2 : O < size)
+    (he : e = if inc then "ErrIncompleteChunk" else "ErrInvalidCRC")
+    (hdec : datafile.DecodeChunk crcNat (file.extract (B * 32768 + O) (B * 32768 + size)) = (ByteArray.empty, 0, some e)) :
+    datafile.next.body0 file crcNat pool0 tol st =
+      if (inc = true ∧ tol = true ∧ B * 32768 + size = file.size) ∨ allZeroFrom file (B * 32768 + O) = true ∨
+          tornZero tol file (B * 32768) O size = true
+      then .ret ((ByteArray.empty, none, datafile.endOfLog tol st.cnt), B, O, st.reader_validEnd)
+      else .ret ((ByteArray.empty, none, some "ErrInvalidCRC"), B, O, st.reader_validEnd) := by
+  subst hB hO
+  have hs1 : size ≤ 32768 := by omega
+  have hs2 : st.reader_blockID * 32768 + size ≤ file.size := by omega
+  have hsize : Hid ((min ((file.size : Int) - (st.reader_blockID : Int) * ((32768 : Nat) : Int)) ((32768 : Nat) : Int) % 2 ^ 32).toNat
+      = size) := ⟨by omega⟩
+  have hoff : Hid (((st.reader_blockID : Int) * ((32768 : Nat) : Int)).toNat = st.reader_blockID * 32768) := ⟨by omega⟩
+  clear hsz
+  have hwin := read_window st.reader_blockBuf file (st.reader_blockID * 32768) size st.reader_offset (by omega)
+  have hzz : ∀ (i j : Int) (k : Nat) (b : Bool), i = (k : Int) → j = (file.size : Int) → allZeroFrom file k = b →
+      datafile.zeroUntilEnd pool0 file i j = some b := by
+    intro i j k b hi hj hb
+    rw [hi, hj, ← hb]
+    exact trans_zeroUntilEnd_eq file pool0 k hp0 (by omega)
+  clear hp0 hbs
+  have hL : st.reader_offset + 7 ≤ size →
+      le16 ((putAt st.reader_blockBuf 0 (file.extract (st.reader_blockID * 32768)
+        (st.reader_blockID * 32768 + (size - 0)))).extract (st.reader_offset + 4) (st.reader_offset + 6))
+        = hdrLen file (st.reader_blockID * 32768 + st.reader_offset) := by
+    intro h7
+    have e1 := read_sub st.reader_blockBuf file (st.reader_blockID * 32768) size (st.reader_offset + 4)
+      (st.reader_offset + 6) hs2 (by omega)
+    have e00 : st.reader_offset + 6 ≤ size := Nat.le_of_succ_le h7
+    have e0 : st.reader_blockID * 32768 + st.reader_offset + 6 ≤ file.size :=
+      Nat.le_trans (by rw [Nat.add_assoc]; exact Nat.add_le_add_left e00 _) hs2
+    have e2 := hdrLen_eq_le16 file (st.reader_blockID * 32768 + st.reader_offset) e0
+    rw [e1, e2]
+    simp only [Nat.add_assoc]
+  generalize hX : datafile.next.body0 file crcNat pool0 tol st = X
+  simp only [datafile.next.body0] at hX
+  rw [if_neg (by nd)] at hX
+  rw [if_neg (by nd)] at hX
+  rw [if_neg (by ndd)] at hX
+  rw [if_pos (by ndd)] at hX
+  obtain ⟨ce, hce⟩ : ∃ ce, ce = claimedEnd file (st.reader_blockID * 32768) st.reader_offset size := ⟨_, rfl⟩
+  have htz : tornZero tol file (st.reader_blockID * 32768) st.reader_offset size
+      = (tol && decide (ce < file.size) && allZeroFrom file ce) := by subst hce; rfl
+  rw [htz]
+  rw [claimedEnd_lit] at hce
+  generalize hLv : hdrLen file (st.reader_blockID * 32768 + st.reader_offset) = L at hce hL
+  clear htz hLv
+  cases haz0 : allZeroFrom file (st.reader_blockID * 32768 + st.reader_offset)
+  · rw [Ctl.call_some _ (hzz _ _ _ false (by nd) (by nd) haz0)] at hX
+    cases tol
+    · -- a reader that does not tolerate a torn tail
+      rw [if_neg (by ndd)] at hX
+      rw [if_neg (by ndd)] at hX
+      rw [if_neg (by simp)]
+      errleaf
+    · -- a reader that tolerates a torn tail
+      by_cases hE : inc = true ∧ st.reader_blockID * 32768 + size = file.size
+      · -- the undecodable chunk is cut short by the end of the file
+        obtain ⟨hi, hE⟩ := hE
+        subst hi
+        simp only [↓reduceIte] at he
+        subst he
+        rw [if_pos (by ndd; omega)] at hX
+        rw [if_pos (Or.inl ⟨rfl, rfl, hE⟩)]
+        exact hX.symm
+      · have hE' : ¬ (inc = true ∧ true = true ∧ st.reader_blockID * 32768 + size = file.size) :=
+          fun h => hE ⟨h.1, h.2.2⟩
+        rw [if_neg (by
+          cases inc <;> simp only [Bool.false_eq_true, ↓reduceIte] at he <;> subst he
+          · ndd
+          · ndd
+            simp only [true_and, not_true_eq_false, false_and, not_false_eq_true] at hE
+            omega)] at hX
+        rw [if_pos (by ndd)] at hX
+        -- the extent the chunk claims: `end` = the model's `claimedEnd`
+        by_cases h7 : st.reader_offset + 7 ≤ size
+        · rw [if_pos h7] at hce
+          have hLb : L < 65536 := by rw [← hL h7]; exact le16_lt _
+          rw [if_pos (by ndd; omega)] at hX
+          rw [end_eq _ (ce : Int) (by
+            simp (disch := omega) only [hfs, datafile.blockSize, datafile.chunkHeaderSize, i64_of_range,
+              Int.toNat_natCast, Nat.mod_eq_of_lt, hsize.h, hoff.h, hL h7]
+            omega)] at hX
+          toltail
+        · rw [if_neg h7] at hce
+          rw [if_neg (by ndd; omega)] at hX
+          rw [end_eq _ (ce : Int) (by ndd; omega)] at hX
+          toltail
+  · rw [Ctl.call_some _ (hzz _ _ _ true (by nd) (by nd) haz0)] at hX
+    rw [if_pos (Or.inr rfl)] at hX
+    rw [if_pos (Or.inr (Or.inl rfl))]
+    exact hX.symm
+
+
 end XixiKV.TransEq
